@@ -436,7 +436,7 @@ func main() {
 				idSeen[f.ID/64] |= 1 << (f.ID % 64)
 				idMu.Unlock()
 			}
-			if n < 200000 {
+			if n < 20000 {
 				distinct.AddBytes(f.Bytes())
 			}
 		})
@@ -502,7 +502,7 @@ func main() {
 	r.Finish(map[string]any{
 		"evaluations":         evals.N(),
 		"distinct_nontrivial": distinct.N(),
-		"rule":                "frame written by frame.Writer and read back by frame.Reader through one live pair; distinct = distinct wire byte strings among the first 200000 frames of each job (lower bound); non-trivial = every frame (each differs from the base frame in the swept field)",
+		"rule":                "frame written by frame.Writer and read back by frame.Reader through one live pair; distinct = distinct wire byte strings among the first 20000 frames of each job (lower bound); non-trivial = every frame (each differs from the base frame in the swept field)",
 		"distinct_v2_message_ids": ids,
 		"jobs":                    len(jobs),
 		"v1_refusals":             nref,
